@@ -1031,7 +1031,7 @@ def pristine_equal(got, expect):
 # generation
 # ===========================================================================
 
-DTYPES = ["<f8", "<f8", "<f8", "<f8", "<i8", "<f4", "|b1"]
+DTYPES = ["<f8", "<f8", "<f8", "<f8", "<f8", "<i8", "<f4", "|b1", "<f2", "|i1", "<u2"]
 
 
 def gen_config(g):
@@ -1128,7 +1128,10 @@ def gen_model(g, gs, cfg, ops, c, invalid=False):
             lo = G.r2(g, -1, 1)
             rec["means"] = enc((lo, round(lo + G.r2(g, 0, 2), 2)))
         else:
-            rec["means"] = arg(cast(G.rand_vec(g, p, -2, 2), g.choice(["<f8", "<f8", "<f4"]), g), must_nd=True)
+            mv = G.rand_vec(g, p, -2, 2)
+            if g.random() < 0.03:
+                mv[g.randrange(p)] = g.choice([float("inf"), float("nan"), -float("inf")])      # non-finite parameters
+            rec["means"] = arg(cast(mv, g.choice(["<f8", "<f8", "<f4"]), g), must_nd=True)
             if g.random() < 0.06 and is_ref(rec["means"]) and ops[-1].get("op") == "buf.new" and ops[-1].get("as") == "nd":
                 ops[-1]["as"] = "col"
         if g.random() < 0.3:
